@@ -2,8 +2,19 @@
 
 Written from the documentation's "Dtype" list; never reads jaxtyping.  The
 universe is the set of dtypes the documentation names (directly, as a precision
-specific class); categories are sets over that universe, `ANY` is `Shaped`
-("any dtype at all").
+specific class) plus the five 8-bit floating dtypes for which the package exports a
+precision class (`Float8e4m3b11fnuz`, `Float8e4m3fn`, `Float8e4m3fnuz`, `Float8e5m2`,
+`Float8e5m2fnuz`: exported by jaxtyping/__init__.py next to `BFloat16`..`Float64`,
+not listed in docs/api/array.md; read as "floating point, of particular precision");
+categories are sets over that universe, `ANY` is `Shaped` ("any dtype at all").
+
+Besides the documented categories the module describes categories a USER declares
+through the documented extension point (`class C(AbstractDtype): dtypes = ...`):
+`names:<id>+<id>..` lists plain dtype NAMES ("an exact match is required"), chosen so
+that the names collide under every sloppy comparison (prefix, suffix, case, regex
+wildcard, regex alternation, regex metacharacters that do not even compile);
+`struct:<id>` is what `make_numpy_struct_dtype` documents ("exact match on the name,
+order, and dtype of all its fields").
 
 Abstract dtype identities ('bool', 'uint8', 'bfloat16', 'key', ...) are mapped to
 the *concrete* name an array library presents (`dtype.type.__name__`) by NumPy /
@@ -18,7 +29,7 @@ KIND = {
     "key": ["key"],
     "uint": ["uint2", "uint4", "uint8", "uint16", "uint32", "uint64"],
     "int": ["int2", "int4", "int8", "int16", "int32", "int64"],
-    "float": ["bfloat16", "float16", "float32", "float64"],
+    "float": ["float8_e4m3b11fnuz", "float8_e4m3fn", "float8_e4m3fnuz", "float8_e5m2", "float8_e5m2fnuz", "bfloat16", "float16", "float32", "float64"],
     "complex": ["complex64", "complex128"],
 }
 UNIVERSE = [d for k in ("bool", "key", "uint", "int", "float", "complex") for d in KIND[k]]
@@ -37,7 +48,18 @@ CAT_KINDS = {
     "Int": ["int"],
     "Real": ["float", "uint", "int"],
 }
+# exported 8-bit float precision classes: class name -> dtype name.  Two pairs of these
+# names are proper prefixes of one another (float8_e5m2 / float8_e5m2fnuz, float8_e4m3fn /
+# float8_e4m3fnuz).
+FLOAT8 = {
+    "Float8e4m3b11fnuz": "float8_e4m3b11fnuz",
+    "Float8e4m3fn": "float8_e4m3fn",
+    "Float8e4m3fnuz": "float8_e4m3fnuz",
+    "Float8e5m2": "float8_e5m2",
+    "Float8e5m2fnuz": "float8_e5m2fnuz",
+}
 PRECISION = {
+    **FLOAT8,
     "BFloat16": "bfloat16",
     "Float16": "float16",
     "Float32": "float32",
@@ -53,8 +75,48 @@ CATS16 = GENERAL + ["Float32", "Int8", "UInt8", "Complex64", "BFloat16"]
 CATS8 = ["Shaped", "Bool", "Num", "Float", "Int", "UInt", "Float32", "Key"]
 
 
+# ---- user categories over colliding plain names -----------------------------------
+# id -> dtype name.  'i8' and 'f32' are the base names (also identities of the documented
+# universe, so they meet Int8 / Int / Float32 / Float); every other name is related to a base
+# name (or to another entry) by one relation that a comparison other than string equality
+# confuses.
+NAMES = {
+    "i8": "int8",
+    "i8x": "int8x",  # the base is a proper prefix of it        (startswith, re.match)
+    "xi8": "xint8",  # the base is a proper suffix of it        (endswith, re.search)
+    "I8": "Int8",  # differs by case only                      (lower(), re.IGNORECASE)
+    "f32": "float32",
+    "fdot": "f.oat32",  # as a regex it matches the other base name   (no escaping)
+    "alt": "int8|float32",  # as a regex it matches both base names    (alternation)
+    "plus": "a+b",  # as a regex it matches 'ab', 'aab', not itself
+    "aab": "aab",
+    "paren": "(x",  # not a valid regex
+    "brack": "[y",  # not a valid regex
+}
+# names that no category lists, probed only: shorter / longer neighbours of the names above
+# (none of them is a dtype of any array library, so no reading of a documented category contains them)
+NAME_NEIGHBOURS = ["int", "int8xy", "ab", "x", "float8_e5m", "float8_e5m2fnuzx"]
+STRUCTS = {
+    "f": [("f", "u1")],
+    "fg": [("f", "u1"), ("g", "i1")],
+}
+NAME_CATS_ALL = "names:ALL"  # lists every name above
+NAME_CATS = ["names:" + i for i in NAMES] + ["names:i8+i8x", "names:i8x+xi8", "names:f32+fdot", "names:alt+plus+paren", NAME_CATS_ALL] + ["struct:" + i for i in STRUCTS]
+
+
+def struct_name(ident: str) -> str:
+    """dtype name of a documented struct category = str() of the NumPy structured dtype."""
+    import numpy as np
+
+    return str(np.dtype(STRUCTS[ident]))
+
+
 def members(cat: str):
     """ANY or a frozenset of abstract dtype identities."""
+    if cat.startswith("names:"):
+        return frozenset(NAMES.values() if cat == NAME_CATS_ALL else (NAMES[i] for i in cat[6:].split("+")))
+    if cat.startswith("struct:"):
+        return frozenset([struct_name(cat[7:])])
     if cat in PRECISION:
         return frozenset([PRECISION[cat]])
     kinds = CAT_KINDS[cat]
@@ -79,6 +141,8 @@ def concrete(abstract: str) -> str:
     """Name that a NumPy/JAX array of that dtype presents as dtype.type.__name__."""
     if abstract in _concrete:
         return _concrete[abstract]
+    if abstract not in UNIVERSE:
+        return abstract  # a user's plain name / struct name is its own concrete name
     import numpy as np
 
     if abstract == "key":
